@@ -810,12 +810,30 @@ fn run_typed<R: Raw>(scn: &Scenario, opts: &RunOpts) -> Outcome {
     let mut dead = false;
     let mut checkers: Vec<Option<Arc<dyn StateValidityChecker<S<R>>>>> = Vec::new();
 
+    // What a user who keeps his objects around does: the same `Arc<ProblemDefinition>` is handed
+    // to every setup / set_problem_definition of one problem, and problems with identical goal
+    // specifications over the same space object share one goal object (a new start, the old
+    // goal). Scenarios with the parameter `fresh_objects` build everything anew on every call.
+    let fresh_objects = scn.param("fresh_objects") == Some(1.0);
+    let pd_cache: std::cell::RefCell<Vec<Option<Arc<Pd<R>>>>> = std::cell::RefCell::new(vec![None; scn.problems.len()]);
+    let goal_cache: std::cell::RefCell<Vec<(usize, Arc<SimGoal<R>>)>> = std::cell::RefCell::new(Vec::new());
     let make_pd = |pi: usize| -> Arc<Pd<R>> {
         let p = &scn.problems[pi];
-        Arc::new(ProblemDefinition {
+        if !fresh_objects {
+            if let Some(pd) = &pd_cache.borrow()[pi] {
+                return pd.clone();
+            }
+        }
+        let shared_goal = if fresh_objects {
+            None
+        } else {
+            goal_cache.borrow().iter().find(|(pj, _)| scn.problems[*pj].goal == p.goal && Arc::ptr_eq(&pspaces[*pj].1, &pspaces[pi].1)).map(|(_, g)| g.clone())
+        };
+        let pd = Arc::new(ProblemDefinition {
             space: pspaces[pi].1.clone(),
             start_states: p.starts.iter().map(|s| R::dec(&lay, s)).collect(),
-            goal: Arc::new(SimGoal::<R> {
+            goal: shared_goal.unwrap_or_else(|| {
+              let g = Arc::new(SimGoal::<R> {
                 inner: pspaces[pi].0.clone(),
                 lay: lay.clone(),
                 target: R::dec(&lay, &p.goal.target),
@@ -828,8 +846,13 @@ fn run_typed<R: Raw>(scn: &Scenario, opts: &RunOpts) -> Outcome {
                     let k = p.goal.comp.as_ref().map(|cc| cc.comp).or_else(|| (0..lay.len()).find(|i| ws[*i] == 0.0));
                     k.map(|k| (crate::spaces::comp_offset(&lay, k), lay[k]))
                 },
+              });
+              goal_cache.borrow_mut().push((pi, g.clone()));
+              g
             }),
-        })
+        });
+        pd_cache.borrow_mut()[pi] = Some(pd.clone());
+        pd
     };
 
     for (ci, call) in scn.calls.iter().enumerate() {
